@@ -167,6 +167,16 @@ type availSnap struct {
 	why string
 }
 
+// stayIdleObligation: see world.stayIdle.
+type stayIdleObligation struct {
+	why       string    // the failed outcome ("rpcerr", "invalid_ts(absent)", "exec_rejected(df)", ...)
+	req       int       // number of the request the failed Synchronize call carried (first of a streak)
+	at        time.Time // clock reading when that call returned
+	failures  int       // failed outcomes since the last successful CheckReadiness
+	calls     int       // CheckReadiness calls made so far, when the obligation was raised
+	successes int       // CheckReadiness calls that had returned nil so far, when it was raised
+}
+
 type execCmd struct {
 	emit   int
 	finish bool
@@ -214,6 +224,20 @@ type world struct {
 	readinessOK   bool // a CheckReadiness succeeded since the last failure / start
 	readinessThis bool // ... during the current Run (diagnostic only)
 	diagNoSameRun int
+	// Counted by the fake executor itself: CheckReadiness calls that were made
+	// and calls that returned nil.
+	readinessCalls     int
+	readinessSuccesses int
+	// stayIdle: the obligation "after a failure ... asks to stay idle until
+	// readiness has been re-checked" raised by a non-OK outcome of a
+	// Synchronize call (RPC error, invalid/absent next_synchronization_at,
+	// execute request that fails the worker's validation). It is discharged by
+	// one thing only: a CheckReadiness call that was really made after the
+	// failure and returned nil (readinessSuccesses > stayIdle.successes). No
+	// amount of time passing ends it; in particular not the expiry of the
+	// one-minute bound after which the scheduler is assumed to have forgotten
+	// the worker (that bound is about when the worker may terminate).
+	stayIdle *stayIdleObligation
 
 	// Scheduler side.
 	replies  []*replyPlan // Run test: at most one pending; loop test: a queue
@@ -324,6 +348,7 @@ func (w *world) whereOf(a *actionRec) string {
 
 func (w *world) CheckReadiness(ctx context.Context) error {
 	w.mu.Lock()
+	w.readinessCalls++
 	plan := "ok"
 	if len(w.readiness) > 0 {
 		plan = w.readiness[0]
@@ -349,6 +374,27 @@ func (w *world) CheckReadiness(ctx context.Context) error {
 	}
 	w.readinessOK = true
 	w.readinessThis = true
+	w.readinessSuccesses++
+	return nil
+}
+
+// raiseStayIdle records a non-OK outcome of a Synchronize call (w.mu held).
+// The first failure since the last successful CheckReadiness is kept for the
+// message; later ones are counted.
+func (w *world) raiseStayIdle(why string) {
+	if o := w.stayIdle; o != nil && o.successes == w.readinessSuccesses {
+		o.failures++
+		return
+	}
+	w.stayIdle = &stayIdleObligation{why: why, req: w.nSync, at: w.clock.Now(), failures: 1, calls: w.readinessCalls, successes: w.readinessSuccesses}
+}
+
+// stayIdlePending returns the obligation if no CheckReadiness call has been
+// made and succeeded since it was raised (w.mu held).
+func (w *world) stayIdlePending() *stayIdleObligation {
+	if o := w.stayIdle; o != nil && o.successes == w.readinessSuccesses {
+		return o
+	}
 	return nil
 }
 
@@ -547,6 +593,35 @@ func (w *world) checkRequest(req *remoteworker.SynchronizeRequest) int {
 				w.diagNoSameRun++
 			}
 			w.label("idle_soliciting")
+		}
+		// "After a failure ... it asks to stay idle until readiness has been
+		// re-checked": a Synchronize call that ended in an RPC error, in a
+		// reply with an invalid timestamp or in an execute request the worker
+		// had to refuse may have cost an execute request, so the worker cannot
+		// know what the scheduler believes and skips its readiness check
+		// (build_client.go Run: "Even though we are idle, the scheduler may
+		// think we are executing. This means we were not able to perform
+		// readiness checks. Forcefully switch to idle, so that we can still do
+		// this before picking up more work"). The obligation ends when the fake
+		// executor has seen a CheckReadiness call made after the failure return
+		// nil, never because time has passed.
+		if o := w.stayIdlePending(); o != nil {
+			// until = the bound BuildClient recorded at the first failure of the
+			// streak: the next-sync time it had then, plus one minute. Failed
+			// outcomes do not move refSync, so this is refSync + 1 min.
+			expired := w.clock.Now().After(w.refSync.Add(time.Minute))
+			if !pbi {
+				w.violate("request #%d is Idle with prefer_being_idle=false after a failed synchronisation (%s at request #%d, %s ago, %d failed outcome(s) since), but readiness has not been re-checked since: CheckReadiness calls then/now %d/%d, successful ones %d/%d (last provided next-sync + 1 min expired: %v; shutdown: %v)",
+					w.nSync, o.why, o.req, w.clock.Now().Sub(o.at), o.failures, o.calls, w.readinessCalls, o.successes, w.readinessSuccesses, expired, w.shutdown)
+			}
+			if !w.shutdown && !w.cleanup {
+				// Outside shutdown nothing else forces prefer_being_idle.
+				if expired {
+					w.label("idle_request_after_failure_and_expired_bound")
+				} else {
+					w.label("idle_request_after_failure_within_bound")
+				}
+			}
 		}
 		return repIdle
 	case *remoteworker.CurrentState_Executing_:
@@ -874,6 +949,7 @@ func (w *world) Synchronize(ctx context.Context, req *remoteworker.SynchronizeRe
 		// The request may have been processed and an execute reply lost.
 		w.mayBelieveExec = true
 		w.label("reply_rpc_error")
+		w.raiseStayIdle("rpcerr")
 		if ctx.Err() != nil {
 			return nil, status.FromContextError(ctx.Err()).Err()
 		}
@@ -909,6 +985,7 @@ func (w *world) Synchronize(ctx context.Context, req *remoteworker.SynchronizeRe
 	}
 	if !valid {
 		w.label("reply_invalid_timestamp")
+		w.raiseStayIdle("invalid_ts(" + plan.TS + ")")
 	}
 	w.lastReplyValid = valid
 
@@ -943,6 +1020,7 @@ func (w *world) Synchronize(ctx context.Context, req *remoteworker.SynchronizeRe
 			}
 			w.label("reply_exec_rejected")
 			w.label("reply_exec_rejected_" + plan.Act.Reject)
+			w.raiseStayIdle("exec_rejected(" + plan.Act.Reject + ")")
 			if w.active > 0 {
 				w.label("exec_rejected_while_executing")
 			}
